@@ -846,3 +846,85 @@ func TestGowpReplay(t *testing.T) {
 }
 `, true
 }
+
+// --- a bar queued after a bar that was already popped out (C18, C17) -------------------------
+
+func init() {
+	replayHarnesses = append(replayHarnesses,
+		replayHarness{match: prefixMatch("(*Progress).Add$1/ensures:abovepop"), pkgDir: ".", render: renderQueuedAfterPopped,
+			class: func(P *Program, ob *Obligation) string { return "queued-after-popped" }})
+}
+
+// pop mode, manual refresh: x finishes and is popped out, then q is queued after x, then y
+// finishes. Oracle: in the frame that pops y out, y is the top row.
+func renderQueuedAfterPopped(P *Program, ob *Obligation) (string, bool) {
+	return `package mpb
+
+import (
+	"bytes"
+	"strings"
+	"sync"
+	"testing"
+	"time"
+
+	"github.com/vbauerster/mpb/v8/decor"
+)
+
+type lb2 struct {
+	mu sync.Mutex
+	b  bytes.Buffer
+}
+
+func (l *lb2) Write(p []byte) (int, error) { l.mu.Lock(); defer l.mu.Unlock(); return l.b.Write(p) }
+func (l *lb2) String() string               { l.mu.Lock(); defer l.mu.Unlock(); return l.b.String() }
+
+// pop mode: x finishes and is popped; later a bar is queued after x. It must be a running bar
+// below the finished ones, not above them.
+func TestGowpReplay(t *testing.T) {
+	out := &lb2{}
+	rc := make(chan interface{})
+	p := New(WithOutput(out), WithManualRefresh(rc), WithWidth(40), PopCompletedMode())
+	x := p.AddBar(1, PrependDecorators(decor.Name("xx")))
+	y := p.AddBar(1, PrependDecorators(decor.Name("yy")))
+	run := p.AddBar(10, PrependDecorators(decor.Name("rr")))
+	x.Increment()
+	for i := 0; i < 4; i++ {
+		rc <- time.Now()
+		time.Sleep(20 * time.Millisecond)
+	}
+	q := p.AddBar(10, BarQueueAfter(x), PrependDecorators(decor.Name("qq")))
+	rc <- time.Now()
+	time.Sleep(20 * time.Millisecond)
+	y.Increment() // y finishes later: must end up above the running bars q and rr
+	for i := 0; i < 4; i++ {
+		rc <- time.Now()
+		time.Sleep(20 * time.Millisecond)
+	}
+	s := out.String()
+	// last frame: order of names
+	idx := strings.LastIndex(s, "\x1b[")
+	last := s[idx:]
+	_ = last
+	lines := strings.Split(s, "\n")
+	var tail []string
+	for _, l := range lines[len(lines)-8:] {
+		tail = append(tail, l)
+	}
+	t.Logf("tail: %q", tail)
+	// the last frame that contains yy is the one in which it is popped out: it must be its top row
+	frames := strings.Split(s, "\x1b[")
+	for i := len(frames) - 1; i >= 0; i-- {
+		if strings.Contains(frames[i], "yy") {
+			rows := strings.Split(frames[i], "\n")
+			if !strings.Contains(rows[0], "yy") {
+				t.Errorf("pop mode: REPRODUCED: the finished bar yy is drawn below the running bar %q (queued after an already popped bar)", strings.TrimSpace(rows[0]))
+			}
+			break
+		}
+	}
+	q.Abort(false)
+	run.Abort(false)
+	p.Wait()
+}
+`, true
+}
